@@ -126,6 +126,9 @@ type run struct {
 	base      int            // index offset of the current phase's clients (restart uses client 9)
 	viol      []string
 	torn      bool // teardown has begun: no new client conns
+	// openAtReturn: what of the server's listener / PacketConn was still open at the moment the
+	// effective Shutdown call returned ("" = nothing)
+	openAtReturn string
 	nonce     string
 }
 
@@ -776,7 +779,14 @@ func (r *run) execute() (err error) {
 			}
 			r.log.Add("misuse.secondShutdown.call")
 			e := r.srv.Shutdown()
+			open := ""
+			if !isNotStarted(e) {
+				open = r.openTransport()
+			}
 			r.mu.Lock()
+			if !isNotStarted(e) {
+				r.openAtReturn = open
+			}
 			r.results["secondShutdown"] = e
 			r.resultSet["secondShutdown"] = true
 			r.mu.Unlock()
@@ -819,8 +829,15 @@ func (r *run) execute() (err error) {
 		default:
 			e = r.srv.ShutdownContext(ctx)
 		}
+		open := ""
+		if !isNotStarted(e) { // only the call that really shut the server down may be probed (the probe of a real UDP socket resets its deadline)
+			open = r.openTransport() // AT the moment Shutdown returns, before anything else happens
+		}
 		r.mu.Lock()
 		r.sdErr = e
+		if !isNotStarted(e) {
+			r.openAtReturn = open
+		}
 		r.mu.Unlock()
 		r.log.Point("shutdown.return(" + errTag(e) + ")")
 		close(sdDone)
@@ -1020,6 +1037,26 @@ func (r *run) invariants() error {
 			return r.fail("I2: the reply of handler (%d,%d) could not be written although its client was still there", j, q)
 		}
 	}
+	// I6 at the moment of return: Shutdown itself leaves no socket of the server open
+	r.mu.Lock()
+	openAt := r.openAtReturn
+	r.mu.Unlock()
+	if openAt != "" {
+		return r.fail("I6: when Shutdown returned (%v), %s of the server was still open", effErr, openAt)
+	}
+	// documented bound: a connection is served at most MaxTCPQueries requests
+	if r.s.stream() && r.s.MaxTCP > 0 {
+		perConn := map[int]int{}
+		for _, n := range names {
+			var j, q int
+			if scan(n, "handler.enter(%d,%d)", &j, &q) {
+				perConn[j]++
+				if perConn[j] > r.s.MaxTCP {
+					return r.fail("connection %d was served %d requests with MaxTCPQueries = %d", j, perConn[j], r.s.MaxTCP)
+				}
+			}
+		}
+	}
 	// each handler ran at most once per request (no duplicate dispatch)
 	seen := map[string]bool{}
 	for _, n := range names {
@@ -1051,6 +1088,14 @@ func (r *run) failedStart(kind string) error {
 		}
 		pc.Close()
 		srv.PacketConn = pc
+	case "closedPacketConn": // a generic (non-UDPConn) PacketConn that is already closed
+		pc := memnet.NewPacketConn(nil, "", memnet.UDPAddr(53))
+		pc.Close()
+		srv.PacketConn = pc
+	case "closedMemListener":
+		l := memnet.NewListener(nil, "")
+		l.Close()
+		srv.Listener = l
 	case "closedListener":
 		l, err := net.Listen("tcp", "127.0.0.1:0")
 		if err != nil {
@@ -1116,6 +1161,29 @@ func (r *run) failedStart(kind string) error {
 	srv.Net, srv.Addr = "", ""
 	srv.Listener, srv.PacketConn, srv.NotifyStartedFunc = savedL, savedP, savedNotify
 	return nil
+}
+
+// openTransport reports which of the server's own sockets is still open right now ("" = none).
+func (r *run) openTransport() string {
+	switch {
+	case r.lis != nil:
+		if !r.lis.Closed() {
+			return "the listener (Close has not been called, or has not returned)"
+		}
+	case r.spy != nil:
+		if !r.spy.Closed() {
+			return "the TCP listener"
+		}
+	case r.pc != nil:
+		if !r.pc.Closed() {
+			return "the PacketConn (Close has not been called, or has not returned)"
+		}
+	case r.udp != nil:
+		if err := r.udp.SetReadDeadline(time.Time{}); err == nil {
+			return "the UDP socket"
+		}
+	}
+	return ""
 }
 
 // connsLeft returns the number of connections the server still tracks (Server.conns, read by
